@@ -144,8 +144,13 @@ def main():
     from harness import purity_routines as PR
     jobs = json.load(sys.stdin)
     out = []
+    import faulthandler
+    job_timeout = int(os.environ.get("VERIF_C19_JOB_TIMEOUT", "600"))
     for job in jobs:
         rec = {"id": job["id"]}
+        # watchdog: a call that never returns ends the worker with the Python stack of the stuck job on stderr
+        sys.stderr.write("JOB %s\n" % json.dumps(job))
+        faulthandler.dump_traceback_later(job_timeout, exit=True)
         try:
             if pz:
                 pz.set_byte(job["byte"])
@@ -182,6 +187,7 @@ def main():
         except Exception as ex:    # worker problem, reported as such
             rec["worker_error"] = "%s: %s" % (type(ex).__name__, ex)
         finally:
+            faulthandler.cancel_dump_traceback_later()
             if pz:
                 pz.set_enabled(0)
         out.append(rec)
